@@ -123,7 +123,15 @@ namespace smt
     std::unordered_map<std::string, lit> s_asrts;          // the assertions (string to literal) used for reducing the number of boolean variables..
     std::unordered_map<var, assertion *> v_asrts;          // the assertions (literal to assertions) used for enforcing (negating) assertions..
     std::vector<std::vector<assertion *>> a_watches;       // for each variable 'v', a list of assertions watching 'v'..
-    std::vector<std::unordered_set<row *>> t_watches;      // for each variable 'v', a list of tableau rows watching 'v'..
+    /**
+     * Orders the rows by their basic variable: the order in which the watches are visited determines the order of bound propagations, hence it must depend
+     * neither on memory addresses nor, when rows are updated in parallel, on the order in which the tasks are scheduled.
+     */
+    struct row_cmp
+    {
+      bool operator()(const row *r0, const row *r1) const noexcept;
+    };
+    std::vector<std::set<row *, row_cmp>> t_watches;        // for each variable 'v', a list of tableau rows watching 'v'..
     std::vector<std::unordered_map<size_t, bound>> layers; // we store the updated bounds..
     std::unordered_map<var, std::set<lra_value_listener *>> listening;
 
